@@ -40,3 +40,63 @@ def chunk_independence(p):
         if run_chunks(cfg, [s[a:b] for a, b in zip([0] + cuts, cuts + [len(s)])]) != whole: bad.append({"cfg": list(cfg), "stream": s.hex(), "cuts": cuts})
     return {"name": "chunk independence (differential, real reader)", "bound": f"all streams = 3 prefixes x up to {L-3} octets over a 5-letter alphabet (exhaustive to 4, sampled above) x every single cut and byte-at-a-time x 4 configurations; {p.get('rand', 600)} random frame/noise streams with random multi-cuts",
             "evaluations": ev, "distinct_nontrivial": distinct, "violations": bad[:2]}
+
+def ideal_receiver(stream, cfg):
+    """the ideal receiver of props/ideal_hdlc.py evaluated on a concrete stream: state before each position and the completions.
+    -> (states, completions) where states[p] = None (hunting) or (octets, pending escape, raw length) and completions = [(position of the flag, octets)]"""
+    from props import spec_py as sp
+    stuffing, abort = cfg; st = None; states = []; comps = []
+    for p, c in enumerate(stream):
+        states.append(st)
+        if st is None:
+            st = (b"", False, 0) if c == 0x7E else None; continue
+        octs, esc, rn = st; n = len(octs)
+        if c == 0x7E:
+            cp = sp.ctrl_pos(octs); hcs = cp is not None and n > cp + 2; aborted = abort and rn > 1 and stream[p - 1] == 0x7D
+            if n == 0: st = (b"", False, 0)
+            elif not hcs or aborted: st = None
+            elif stuffing or (n >= 2 and sp.len_field(octs) == n): comps.append((p, octs)); st = (b"", False, 0)
+            else: st = None if n + 1 > 2047 else (octs + b"\x7e", False, rn + 1)
+        elif stuffing:
+            grows = not (not esc and c == 0x7D); octs2 = octs + bytes([c ^ 0x20 if esc else c]) if grows else octs
+            st = None if len(octs2) > 2047 else (octs2, not grows, rn + 1)
+        else:
+            st = None if n + 1 > 2047 else (octs + bytes([c]), False, rn + 1)
+    states.append(st)
+    return states, comps
+
+def ideal_receiver_check(p):
+    """the contract of read() against the ideal receiver, evaluated on the real reader: after every call the reader's state is the ideal receiver's state at the
+    stream position and the frames returned so far are its completions (bounded: generated streams incl. noise, truncated, corrupted and over-long frames)"""
+    rnd = random.Random(p.get("seed", 0)); n = p.get("n", 400); ev = 0; distinct = set(); bad = []
+    good = [mk_frame(rnd, False, k) for k in (0, 1, 3, 12)]
+    for it in range(n):
+        cfg = (bool(it & 1), bool(it & 2)); parts = []
+        for _ in range(rnd.randrange(1, 9)):
+            c = rnd.random()
+            if c < 0.35: fr = rnd.choice(good); parts.append(b"\x7e" + (stuff(fr) if cfg[0] else fr) + b"\x7e")
+            elif c < 0.5: fr = bytearray(rnd.choice(good)); fr[rnd.randrange(len(fr))] ^= 1 << rnd.randrange(8); parts.append(b"\x7e" + bytes(fr))
+            elif c < 0.6: fr = rnd.choice(good); parts.append(b"\x7e" + fr[:rnd.randrange(len(fr))] + b"\x7e")
+            elif c < 0.63: parts.append(b"\x7e\xa0\x0a\x03\x03\x13" + bytes(rnd.choice([0x55, 0x7D, 0x5E]) for _ in range(2100)))
+            else: parts.append(bytes(rnd.choice(ALPHA) for _ in range(rnd.randrange(1, 6))))
+        s = b"".join(parts); states, comps = ideal_receiver(s, cfg)
+        cuts = sorted(rnd.sample(range(len(s) + 1), min(len(s) + 1, rnd.randrange(0, 7)))) if it % 4 else list(range(1, min(len(s), 400)))
+        r = hdlc.HdlcFrameReader(*cfg); got = []; why = None
+        for a, b in zip([0] + cuts, cuts + [len(s)]):
+            got += r.read(s[a:b]); ev += 1; ideal = states[b]; done = [o for (q, o) in comps if q < b]
+            if (r._frame is None) != (ideal is None): why = f"position {b}: hunting={r._frame is None}, ideal receiver hunting={ideal is None}"
+            elif ideal is not None and (r._frame.as_bytes != ideal[0] or bool(r._unescape_next) != ideal[1] or len(r._raw_frame_data) != ideal[2]):
+                why = f"position {b}: frame {r._frame.as_bytes.hex()[:40]} esc={r._unescape_next} raw={len(r._raw_frame_data)}, ideal {ideal[0].hex()[:40]} esc={ideal[1]} raw={ideal[2]}"
+            elif [f.as_bytes for f in got] != done: why = f"position {b}: {len(got)} frames returned, the ideal receiver completed {len(done)}"
+            if why: break
+        distinct.add((cfg, len(s), len(cuts)))
+        if why: bad.append({"cfg": list(cfg), "why": why, "cuts": cuts[:20], "stream": s.hex() if len(s) < 160 else s.hex()[:160] + "..."}); break
+    return {"name": "ideal_receiver_check (contract of read() against the ideal receiver, on the real reader)", "bound": f"{n} generated streams (good, corrupted, truncated, over-long frames and noise) x random chunkings (every fourth byte-at-a-time), 4 configurations",
+            "evaluations": ev, "distinct_nontrivial": len(distinct), "violations": bad[:2]}
+
+def replay_ideal(p):
+    r = ideal_receiver_check({"seed": 9, "n": 600})
+    if r["violations"]: return {"violated": True, "detail": r["violations"][0], "found_by": "bounded search over generated streams"}
+    r2 = chunk_independence({"seed": 4, "maxlen": 6, "rand": 300})
+    if r2.get("violations"): return {"violated": True, "detail": r2["violations"][0], "found_by": "bounded differential"}
+    return {"violated": False, "inconclusive": True, "detail": "no generated stream breaks the contract on the real reader"}
